@@ -381,7 +381,7 @@ pub enum Ev {
 /// While the periodic reaper is stalled inside close() of an expired session (its transport's
 /// shutdown never completes, so close() takes its 1 s timeout while holding the pool lock), the
 /// events of `order` happen 100 ms apart and queue on the lock.
-pub fn make_conc(order: Vec<Ev>, min_idle: usize) -> crate::ctl::ScenarioFn {
+pub fn make_conc(order: Vec<Ev>, min_idle: usize, two_victims: bool) -> crate::ctl::ScenarioFn {
     scenario(move || {
         let order = order.clone();
         async move {
@@ -409,8 +409,16 @@ pub fn make_conc(order: Vec<Ev>, min_idle: usize) -> crate::ctl::ScenarioFn {
             }
             let Some((s1, p1)) = mk(2, true).await else { return out };
             pool.add_idle_session(s1.clone()).await;
+            // a second expired session behind the stalling one: the reaper closes it after S1
+            let mut s1b = None;
+            if two_victims {
+                let Some((s, p)) = mk(3, false).await else { return out };
+                pool.add_idle_session(s.clone()).await;
+                s1b = Some(s.clone());
+                keep.push((s, p));
+            }
             tokio::time::sleep(Duration::from_millis(1500)).await;
-            let Some((s2, p2)) = mk(3, false).await else { return out };
+            let Some((s2, p2)) = mk(4, false).await else { return out };
             pool.add_idle_session(s2.clone()).await;
             let p2: Arc<Mutex<Option<RawPeer>>> = Arc::new(Mutex::new(Some(p2)));
             // the reaper tick at t = 2000 starts closing S1 and stalls for 1 s
@@ -493,6 +501,18 @@ pub fn make_conc(order: Vec<Ev>, min_idle: usize) -> crate::ctl::ScenarioFn {
             if s2.is_closed() && !order.contains(&Ev::DieNewest) && !order.contains(&Ev::CountThenDie) {
                 viols.lock().unwrap().push(("C12:reaper-closed-fresh-session".into(), "the newest session (idle 0.5 s of a 2 s timeout) was closed".into()));
             }
+            // a session that was handed out is in use: housekeeping must not have closed it afterwards
+            // (the stalled pass ends 1 s after it began)
+            tokio::time::sleep(Duration::from_millis(1200)).await;
+            settle().await;
+            for (seq, sess) in [(2u64, Some(s1.clone())), (3, s1b.clone())] {
+                if let Some(sess) = sess
+                    && handed.lock().unwrap().contains(&seq)
+                    && sess.is_closed()
+                {
+                    viols.lock().unwrap().push(("C12:reaper-closed-session-after-it-was-handed-out".into(), format!("session seq {seq} was returned by get_idle_session while a reaper pass was in progress and was closed by that pass afterwards")));
+                }
+            }
             for (k, d) in viols.lock().unwrap().iter() {
                 out.viol(k.clone(), d.clone());
             }
@@ -538,11 +558,17 @@ fn conc_items(tier: Tier) -> Vec<crate::dxrun::DxItem> {
             continue;
         }
         for min_idle in [0usize, 1] {
-            let params = json!({"part": "pool-lock-concurrency", "order": o.iter().map(|e| format!("{e:?}")).collect::<Vec<_>>(), "min_idle": min_idle});
-            let mut it = crate::dxrun::DxItem::new(params, make_conc(o.clone(), min_idle), if o.len() <= 3 { 1 } else { 0 });
-            it.exec.long_yield = 3;
-            it.exec.quiesce = true;
-            v.push(it);
+            for two_victims in [false, true] {
+                // the second victim matters when something is handed out during the pass
+                if two_victims && (o.iter().filter(|e| **e == Ev::Get).count() < 2 && o.len() > 2) {
+                    continue;
+                }
+                let params = json!({"part": "pool-lock-concurrency", "order": o.iter().map(|e| format!("{e:?}")).collect::<Vec<_>>(), "min_idle": min_idle, "expired_sessions_behind_the_stalling_one": two_victims as u8});
+                let mut it = crate::dxrun::DxItem::new(params, make_conc(o.clone(), min_idle, two_victims), if o.len() <= 3 { 1 } else { 0 });
+                it.exec.long_yield = 3;
+                it.exec.quiesce = true;
+                v.push(it);
+            }
         }
     }
     v
